@@ -234,6 +234,22 @@ def r2_sqlite(ctx: Context) -> None:
         kinds[c] = m.group(1).upper() if m else ("PRAGMA" if "PRAGMA" in text.upper() else "OTHER")
     deletes = [c for c, k in kinds.items() if k == "DELETE"]
     inserts = [c for c, k in kinds.items() if k == "INSERT"]
+    # the table may also be emptied by DROP TABLE + CREATE TABLE.  sqlite3 opens its implicit transaction before INSERT / UPDATE / DELETE / REPLACE only: DDL runs in
+    # autocommit unless an explicit BEGIN was executed first on every path - then it belongs to the transaction the commit / rollback end
+    drops = [c for c, k in kinds.items() if k == "DROP"]
+    begins = [c for c in execs if re.match(r"\s*BEGIN\b", sql_of(c), re.I)]
+    if drops and not deletes:
+        creates = [c for c in execs if re.match(r"\s*CREATE\s+TABLE", sql_of(c), re.I)]
+        if not creates:
+            raise AnalysisError(f"{save.loc(drops[0])}: the table is dropped and the statement that re-creates it cannot be read")
+        gb = CFG(save.node, exc_edges=True)
+        for d_ in drops:
+            for dn in node_for(gb, d_):
+                pth = gb.path_avoiding(gb.entry, {dn}, {x for b_ in begins for x in node_for(gb, b_)}, labels={"next", "true", "false", "loop", "exhaust"})
+                ctx.check(pth is None, "R2.one-transaction", "sqlite3.save:ddl-inside-transaction", "the DROP TABLE that empties the table runs inside an explicit transaction",
+                          "DROP TABLE runs without a preceding BEGIN: sqlite3 starts its implicit transaction for DML only, so the drop is committed on its own - a failing INSERT "
+                          "is rolled back but the previous checkpoint is already gone", save, d_)
+        deletes = drops
     commits = [c for c in calls if isinstance(c.func, ast.Attribute) and c.func.attr == "commit"]
     rollbacks = [c for c in calls if isinstance(c.func, ast.Attribute) and c.func.attr == "rollback"]
     closes = [c for c in calls if isinstance(c.func, ast.Attribute) and c.func.attr == "close"]
